@@ -9,7 +9,9 @@ Symbolic scalars (all int/bool), i = module index, j = module index:
   imp_i_j    bool  module i IMPORTS from module j (self loops and cycles allowed)
   s1_i,s2_i  int   answer of source 1 / 2 for module i: 0 not-found, 1 ok, 2 reader error
   par_i      int   parser on the file of module i: 0 ok (one module), 1 package parser error,
-                   2 empty list, 3 file holds module i and module (i+1)%M
+                   2 empty list, 3 file holds module i and then module (i+1)%M, 4 file holds module (i+1)%M and then module i
+  alias_0    bool  module 0 is requested under another spelling of its name ('a' instead of 'A'): the reader reports the
+                   requested name, the module text declares the canonical one
   sym_i      bool  symbol-table builder fails (package semantic error) on module i
   gen_i      bool  code generator fails (package codegen error) on module i
   sr1_i,sr2_i int  searcher 1/2 for module i: 0 not-found, 1 not-modified, 2 searcher error, 3 returns
@@ -36,7 +38,7 @@ class Src(object):
         self.log = log
 
     def getData(self, name, **kw):
-        i = MODS.index(name)
+        i = MODS.index(name.upper())
         o = self.outcome[i]
         # termination: with M modules and S sources a terminating work list asks at most a few times per (module, source);
         # far beyond that the work list is not draining (reported as a violation instead of letting the path hang)
@@ -68,6 +70,8 @@ class Parser(object):
             raise error.PySmiParserError('bad', lineno=1)
         if o == 2:
             return []
+        if o == 4:
+            return [(k, (i + 1) % self.M), (k, i)]
         return [(k, i), (k, (i + 1) % self.M)]
 
 
@@ -106,7 +110,7 @@ class Searcher(object):
         self.log = log
 
     def fileExists(self, mibname, mtime, rebuild=False):
-        i = MODS.index(mibname)
+        i = MODS.index(mibname.upper())
         self.log.append(('search', self.k, i, rebuild, mtime))
         o = self.outcome[i]
         if o == 0:
@@ -125,7 +129,7 @@ class Borrower(object):
         self.log = log
 
     def getData(self, name, **kw):
-        i = MODS.index(name)
+        i = MODS.index(name.upper())
         if self.outcome[i] == 1:
             self.log.append(('borrow', self.k, i, 'ok', kw.get('genTexts')))
             return MibInfo(name=name, path='bor%d/%s' % (self.k, name), file=name + '.py', mtime=5), ('BOR', self.k, i)
@@ -139,7 +143,7 @@ class Writer(object):
         self.log = log
 
     def putData(self, name, data, comments=(), dryRun=False):
-        i = MODS.index(name)
+        i = MODS.index(name.upper())
         if self.bad[i]:
             self.log.append(('put', i, data, dryRun, 'err'))
             raise error.PySmiWriterError('wr')
@@ -149,6 +153,7 @@ class Writer(object):
 VARS = []
 for _i in range(3):
     VARS.append(('req_%d' % _i, bool, _i == 0))
+VARS.append(('alias_0', bool, False))
 for _i in range(3):
     for _j in range(3):
         VARS.append(('imp_%d_%d' % (_i, _j), bool, False))
@@ -161,7 +166,7 @@ for _n in ('noDeps', 'rebuild', 'dryRun', 'genTexts', 'ignoreErrors'):
 VARS.append(('writeMibs', bool, True))
 VARS.extend([('M', int, 2), ('nsrc', int, 1), ('nsr', int, 0), ('nbo', int, 0)])
 DEFAULTS = dict((n, d) for n, t, d in VARS)
-RANGES = {'s1': (0, 2), 's2': (0, 2), 'par': (0, 3), 'sr1': (0, 3), 'sr2': (0, 3), 'bo1': (0, 1), 'bo2': (0, 1)}
+RANGES = {'s1': (0, 2), 's2': (0, 2), 'par': (0, 4), 'sr1': (0, 3), 'sr2': (0, 3), 'bo1': (0, 1), 'bo2': (0, 1)}
 
 
 def in_range(**kw):
@@ -195,6 +200,23 @@ def build(kw):
     return c
 
 
+def req_name(c, i):
+    return MODS[i].lower() if (i == 0 and c.kw.get('alias_0')) else MODS[i]
+
+
+class _Norm(dict):
+    """result mapping looked up by canonical module name (a module whose lookup failed is keyed by the requested spelling)"""
+
+    def get(self, k, d=None):
+        for kk in self.keys():
+            if kk.upper() == k:
+                return dict.__getitem__(self, kk)
+        return d
+
+    def __contains__(self, k):
+        return any(kk.upper() == k for kk in self.keys())
+
+
 def run(c):
     """Run the real compile(); returns (result or None, log, escaped exception or None)."""
     log = []
@@ -205,10 +227,10 @@ def run(c):
     comp.addSearchers(*[Searcher(k, o, log) for k, o in enumerate(c.sr)])
     comp.addBorrowers(*[Borrower(k, o, log) for k, o in enumerate(c.bo)])
     try:
-        res = comp.compile(*[MODS[i] for i in c.req], **c.opts)
+        res = comp.compile(*[req_name(c, i) for i in c.req], **c.opts)
     except Exception as e:
         return None, log, e
-    return res, log, None
+    return _Norm(res), log, None
 
 
 # ---- ground truth computed by the harness from the configuration -------------
@@ -244,7 +266,7 @@ def oracle_C07(c, res, log, exc):
     M = c.M
     # every value is one of the six statuses, keys are module names
     for k in res:
-        if k not in MODS[:M]:
+        if k.upper() not in MODS[:M]:
             return False
         if res[k] not in STATUSES:
             return False
@@ -329,7 +351,7 @@ def oracle_C08(c, res, log, exc):
             # (which text wins is not determined by the property when the module ALSO sits inside another
             # module's file that was fetched: skipped in that case)
             prev = (i - 1) % M
-            inside_other = M > 1 and c.par[prev] == 3 and any(x[0] == 'parse' and x[2] == prev for x in log)
+            inside_other = M > 1 and c.par[prev] in (3, 4) and any(x[0] == 'parse' and x[2] == prev for x in log)
             for x in log:
                 if x[0] == 'gen' and x[2] == i and x[1] != good and not inside_other:
                     return False
@@ -343,7 +365,7 @@ def file_good(c, i):
     """the file found for module i parses and every module in it passes the symbol-table builder"""
     if c.par[i] == 0:
         return not c.sym[i]
-    if c.par[i] == 3:
+    if c.par[i] in (3, 4):
         return not c.sym[i] and not c.sym[(i + 1) % c.M]
     return False
 
@@ -432,6 +454,13 @@ def oracle_C10(c, res, log, exc):
         for e in log:
             if e[0] == 'gen' and e[2] not in c.req:
                 return False
+    # ... and a requested module that was parsed and is not reported up to date IS generated (also under noDeps, also when
+    # it was requested under another spelling of its name)
+    for i in c.req:
+        parsed = any(e[0] == 'sym' and e[2] == i and not c.sym[i] for e in log)
+        fresh = any(c.sr[k][i] == 1 for k in range(len(c.sr)))
+        if parsed and not fresh and not any(e[0] == 'gen' and e[2] == i for e in log):
+            return False
     return True
 
 
@@ -568,15 +597,15 @@ def shards(tier):
                 '2 modules: writeMibs/dryRun/ignoreErrors x source/codegen/writer outcomes'))
     out.append(('sources2', _v('s1', 2) + _v('s2', 2) + ['imp_0_1'] + _v('par', 2) + ['ignoreErrors'],
                 dict(M=2, nsrc=2), Q, '2 modules, 2 sources: every answer pair x parser outcome'))
-    out.append(('searchers2', _v('sr1', 2) + _v('sr2', 2) + ['noDeps', 'rebuild', 'req_1', 'imp_0_1'],
+    out.append(('searchers2', _v('sr1', 2) + _v('sr2', 2) + ['noDeps', 'rebuild', 'req_1', 'imp_0_1', 'alias_0'],
                 dict(M=2, nsr=2), Q, '2 modules, 2 searchers: every answer x noDeps/rebuild x request set'))
     out.append(('borrow2', _v('bo1', 2) + _v('bo2', 2) + _v('s1', 2) + _v('gen', 2)
-                + ['noDeps', 'genTexts', 'ignoreErrors', 'req_1', 'imp_0_1'], dict(M=2, nbo=2), Q,
+                + ['noDeps', 'genTexts', 'ignoreErrors', 'req_1', 'imp_0_1', 'alias_0'], dict(M=2, nbo=2), Q,
                 '2 modules, 2 borrowers: every answer x lookup/codegen failures x noDeps/genTexts/ignoreErrors'))
     if tier == 'thorough':
         T = 1700
-        for p0 in range(4):
-            for p1 in range(4):
+        for p0 in range(5):
+            for p1 in range(5):
                 out.append(('core2-p%d%d' % (p0, p1),
                             _imps(2) + _v('s1', 2) + _v('sym', 2) + _v('gen', 2) + _v('wr', 2) + ['req_1', 'ignoreErrors'],
                             dict(M=2, par_0=p0, par_1=p1), T,
